@@ -86,6 +86,9 @@ def run(check, prog):
     # precision (rules shared with C02)
     _c02.fortran_double_precision(check, prog)
     _c02.fortran_single_precision_quotients(check, prog)
+    # ... and reports the same four numbers as the single-sphere theory only if
+    # its per-sphere series is not cut in front of a resonant order
+    _c02.series_exit(check, prog)
 
 
 def slots(v):
